@@ -58,7 +58,31 @@ fn check_f32_item(r: &Report, sub: &str, b: u32) -> u64 {
     if out[..used] != buf[..5] {
         r.fail(sub, None, json!({"f32_bits": format!("{:08x}", b), "call": "Encoder::f32"}), format!("wrote {}", hex(&out[..used])));
     }
-    5
+    // the other public ways to write / read a single: the Encode impl, Token::F32, and the serde bridge
+    let mut out2 = [0u8; 8];
+    let used2 = {
+        let mut s: &mut [u8] = &mut out2[..];
+        minicbor::encode(minicbor::data::Token::F32(f32::from_bits(b)), &mut s).unwrap();
+        8 - s.len()
+    };
+    if out2[..used2] != buf[..5] {
+        r.fail(sub, None, json!({"f32_bits": format!("{:08x}", b), "call": "encode(Token::F32)"}), format!("wrote {}", hex(&out2[..used2])));
+    }
+    let mut out3 = [0u8; 8];
+    let used3 = {
+        let mut ser = minicbor_serde::Serializer::new(&mut out3[..]);
+        serde::Serialize::serialize(&f32::from_bits(b), &mut ser).unwrap();
+        8 - ser.encoder().writer().len()
+    };
+    if out3[..used3] != buf[..5] {
+        r.fail(sub, None, json!({"f32_bits": format!("{:08x}", b), "call": "serde Serializer (f32)"}), format!("wrote {}", hex(&out3[..used3])));
+    }
+    let s32 = minicbor_serde::from_slice::<f32>(&buf[..5]).ok().map(|x| x.to_bits());
+    let s64 = minicbor_serde::from_slice::<f64>(&buf[..5]).ok().map(|x| x.to_bits());
+    if s32 != Some(b) || !eq64(s64, f32_to_f64(b)) {
+        r.fail(sub, None, json!({"item_hex": hex(&buf[..5]), "call": "serde from_slice::<f32 / f64>"}), format!("returned {:?} / {:?}", s32.map(|x| format!("{:08x}", x)), s64.map(|x| format!("{:016x}", x))));
+    }
+    9
 }
 
 fn check_f16_encode(r: &Report, sub: &str, c: u32) -> u64 {
@@ -77,7 +101,17 @@ fn check_f16_encode(r: &Report, sub: &str, c: u32) -> u64 {
     if !ok {
         r.fail(sub, None, json!({"f32_bits": format!("{:08x}", c), "call": "Encoder::f16"}), format!("wrote {}; round-to-nearest-even gives f9{:04x}", hex(&out[..used]), f32_to_f16(c)));
     }
-    1
+    // Token::F16 is the explicit half-precision encoding too
+    let mut out2 = [0u8; 8];
+    let used2 = {
+        let mut s: &mut [u8] = &mut out2[..];
+        minicbor::encode(minicbor::data::Token::F16(f32::from_bits(c)), &mut s).unwrap();
+        8 - s.len()
+    };
+    if out2[..used2] != out[..used] {
+        r.fail(sub, None, json!({"f32_bits": format!("{:08x}", c), "call": "encode(Token::F16)"}), format!("wrote {} where Encoder::f16 writes {}", hex(&out2[..used2]), hex(&out[..used])));
+    }
+    2
 }
 
 pub fn run(r: &Report) {
